@@ -59,6 +59,8 @@ CallFunc(sig, args) ==
     [] sig = "ctxv" -> IF \A i \in 1..Len(args) : args[i].k = "int"                                    \* func(*ExecutionContext, ...int) int: implicit parameter, then variadic
                          THEN Val(I(100 + (LET RECURSIVE Sm(_) Sm(i) == IF i > Len(args) THEN 0 ELSE args[i].n + Sm(i + 1) IN Sm(1)))) ELSE Error
     [] sig = "ptrarg" -> IF Len(args) = 1 /\ args[1].k = "ptr" THEN Val(S(IF args[1].l = <<>> THEN <<"n", "i", "l">> ELSE <<"p", "t", "r">>)) ELSE Error   \* func(*T) string: a nil *T is a fine argument
+    [] sig = "strer" -> IF Len(args) = 1 /\ args[1].k = "nil" THEN Val(S(<<"n", "i", "l">>)) ELSE Error   \* func(fmt.Stringer) string: takes nil and what implements the interface (nothing else in the catalogue does)
+    [] sig = "strerv" -> IF \A i \in 1..Len(args) : args[i].k = "nil" THEN Val(I(Len(args))) ELSE Error       \* func(...fmt.Stringer) int
     [] sig = "nilv" -> IF Len(args) = 0 THEN Empty ELSE Error                                           \* func() *Value returning a nil pointer
     [] sig = "nilres" -> IF Len(args) = 0 THEN Empty ELSE Error                                        \* func() any returning nil
     [] OTHER -> Error
